@@ -280,6 +280,58 @@ def f_alloc(ctx, prog, reach):
     ctx.count('F-ALLOC.sites', n)
 
 
+def whole_buf_copy_into_new(body, stmt, pl):
+    """`_x = copy self.buf` (the fat pointer itself: `buf` is the last projection) whose only use - through plain copies and
+    reborrows `&*_x` - is as the argument of Decoder::new"""
+    pj = pl.get('p') or []
+    if not pj or pj[-1].get('k') != 'field' or pj[-1].get('n') != 'buf':
+        return False
+    if stmt['r'].get('rv') != 'use' or stmt['p'].get('p'):
+        return False
+    alias = {stmt['p']['l']}
+    uses = 0
+    changed = True
+    while changed:
+        changed = False
+        for b in body['blocks']:
+            for st_ in b['s']:
+                if st_ is stmt or st_['k'] != 'assign' or st_['p'].get('p'):
+                    continue
+                r = st_['r']
+                src = None
+                if r.get('rv') == 'use' and mir.op_local(r.get('a')) in alias and not (mir.op_place(r['a']) or {}).get('p'):
+                    src = True
+                if r.get('rv') == 'ref' and r['p'].get('l') in alias and [q['k'] for q in (r['p'].get('p') or [])] == ['deref']:
+                    src = True
+                if src and st_['p']['l'] not in alias:
+                    alias.add(st_['p']['l'])
+                    changed = True
+    for b in body['blocks']:
+        for st_ in b['s']:
+            if st_ is stmt or st_['k'] != 'assign':
+                continue
+            r = st_['r']
+            if st_['p']['l'] in alias and not st_['p'].get('p'):
+                continue        # the alias definitions themselves
+            for kx in ('a', 'b'):
+                if isinstance(r.get(kx), dict) and mir.op_local(r[kx]) in alias:
+                    return False
+            if isinstance(r.get('p'), dict) and r['p'].get('l') in alias:
+                return False
+            for o_ in r.get('ops') or []:
+                if mir.op_local(o_) in alias:
+                    return False
+        t = b['t']
+        if t['k'] == 'call':
+            for a_ in t.get('args') or []:
+                if mir.op_local(a_) in alias:
+                    if (mir.callee_path(t) or '') == DEC + 'new':
+                        uses += 1
+                    else:
+                        return False
+    return uses == 1
+
+
 def f_input(ctx, prog):
     D = 'minicbor::decode::decoder::Decoder'
     buf_ok = {DEC + x for x in ('current', 'read', 'peek', 'read_slice', 'input', 'new')} | {DEC + 'peek::{closure#0}', DEC + 'read_slice::{closure#0}',
@@ -318,6 +370,9 @@ def f_input(ctx, prog):
                     n += 1
                     if inst['path'] in buf_ok:
                         ctx.ok('F-INPUT.buf', inst['path'], nontrivial=False)
+                    elif whole_buf_copy_into_new(inst['body'], s, pl):
+                        # the reference to the whole input handed to another Decoder (probe-like copies): not an access to input bytes
+                        ctx.ok('F-INPUT.buf', inst['path'] + '|copy-into-Decoder::new', nontrivial=False)
                     else:
                         ctx.violation('F-INPUT.buf', inst['path'], 'Decoder.buf is accessed outside the checked input primitives', mir.loc(s.get('sp')))
     ctx.floor('F-INPUT', 'field accesses', n, 8)
